@@ -253,6 +253,29 @@ func (r *rw) stmt(s ast.Stmt) ast.Stmt {
 		r.block(x.Body)
 		return x
 	case *ast.RangeStmt:
+		if x.Value == nil && rangesOverChan(x.X) {
+			// for v := range ch  ->  for { v, ok := ch.Recv2(); if !ok { break }; ... }
+			r.needShim = true
+			r.block(x.Body)
+			ok := fresh("ok")
+			var key ast.Expr = ast.NewIdent("_")
+			if x.Key != nil {
+				key = r.expr(x.Key)
+			}
+			tok := x.Tok
+			if x.Key == nil || tok == token.ILLEGAL {
+				tok = token.DEFINE
+			}
+			recv := &ast.AssignStmt{Lhs: []ast.Expr{key, ok}, Tok: tok, Rhs: []ast.Expr{call(&ast.SelectorExpr{X: paren(r.expr(x.X)), Sel: ast.NewIdent("Recv2")})}}
+			var pre []ast.Stmt
+			if tok == token.ASSIGN {
+				// the loop variable exists already; only the flag is new
+				pre = append(pre, &ast.DeclStmt{Decl: &ast.GenDecl{Tok: token.VAR, Specs: []ast.Spec{&ast.ValueSpec{Names: []*ast.Ident{ok}, Type: ast.NewIdent("bool")}}}})
+			}
+			stop := &ast.IfStmt{Cond: &ast.UnaryExpr{Op: token.NOT, X: ok}, Body: &ast.BlockStmt{List: []ast.Stmt{&ast.BranchStmt{Tok: token.BREAK}}}}
+			body := append(append(pre, recv, stop), x.Body.List...)
+			return &ast.ForStmt{Body: &ast.BlockStmt{List: body}}
+		}
 		x.Key, x.Value, x.X = r.expr(x.Key), r.expr(x.Value), r.expr(x.X)
 		r.block(x.Body)
 		return x
@@ -423,6 +446,68 @@ func (r *rw) decl(d ast.Decl) {
 	}
 }
 
+// chanNames: names (struct fields, variables, parameters, functions returning a channel) that the
+// package declares with a channel type. There is no type checker in this rewriter; the set decides
+// whether "for v := range X" ranges over a channel (X's last name is in the set).
+var chanNames = map[string]bool{}
+
+func collectChanNames(f *ast.File) {
+	isChan := func(e ast.Expr) bool { _, ok := e.(*ast.ChanType); return ok }
+	ast.Inspect(f, func(n ast.Node) bool {
+		switch x := n.(type) {
+		case *ast.Field:
+			if isChan(x.Type) {
+				for _, id := range x.Names {
+					chanNames[id.Name] = true
+				}
+			}
+		case *ast.ValueSpec:
+			if x.Type != nil && isChan(x.Type) {
+				for _, id := range x.Names {
+					chanNames[id.Name] = true
+				}
+			}
+			for i, v := range x.Values {
+				if c, ok := v.(*ast.CallExpr); ok && len(c.Args) > 0 && i < len(x.Names) {
+					if id, ok := c.Fun.(*ast.Ident); ok && id.Name == "make" && isChan(c.Args[0]) {
+						chanNames[x.Names[i].Name] = true
+					}
+				}
+			}
+		case *ast.AssignStmt:
+			for i, v := range x.Rhs {
+				if c, ok := v.(*ast.CallExpr); ok && len(c.Args) > 0 && i < len(x.Lhs) {
+					if id, ok := c.Fun.(*ast.Ident); ok && id.Name == "make" && isChan(c.Args[0]) {
+						if l, ok := x.Lhs[i].(*ast.Ident); ok {
+							chanNames[l.Name] = true
+						}
+					}
+				}
+			}
+		case *ast.FuncDecl:
+			if x.Type.Results != nil && len(x.Type.Results.List) == 1 && isChan(x.Type.Results.List[0].Type) {
+				chanNames[x.Name.Name] = true
+			}
+		}
+		return true
+	})
+}
+
+// rangesOverChan reports whether the range expression names a channel of this package.
+func rangesOverChan(e ast.Expr) bool {
+	switch x := e.(type) {
+	case *ast.Ident:
+		return chanNames[x.Name]
+	case *ast.SelectorExpr:
+		return chanNames[x.Sel.Name]
+	case *ast.CallExpr:
+		return len(x.Args) == 0 && rangesOverChan(x.Fun)
+	case *ast.ParenExpr:
+		return rangesOverChan(x.X)
+	}
+	return false
+}
+
 func (r *rw) file(f *ast.File) {
 	// import path replacement
 	for _, im := range f.Imports {
@@ -450,6 +535,15 @@ func main() {
 	overlay := map[string]string{}
 	for _, dir := range os.Args[2:] {
 		ents, _ := os.ReadDir(dir)
+		chanNames = map[string]bool{}
+		for _, e := range ents {
+			name := e.Name()
+			if strings.HasSuffix(name, ".go") && !strings.HasSuffix(name, "_test.go") {
+				if f, err := parser.ParseFile(token.NewFileSet(), filepath.Join(dir, name), nil, 0); err == nil {
+					collectChanNames(f)
+				}
+			}
+		}
 		for _, e := range ents {
 			name := e.Name()
 			if !strings.HasSuffix(name, ".go") || strings.HasSuffix(name, "_test.go") {
